@@ -100,6 +100,22 @@ def run(ctx, broken):
     rng = SplitMix(ctx.seed * 1000003 + 15)
     n = 18 if ctx.tier == "quick" else 120
     progs = circuits(rng, n)
+    # DENSE descriptions: circuits that fill the parameters' capacity (almost) completely with FRESH full-width selector scalars
+    # in every gate — 6 random coefficients per arithmetic gate, and the worst case of the packed size: 11 selectors per row whose
+    # little-endian bytes are all >= 0x80 (two MessagePack bytes each). They must still fit the inflate limit of the capacity.
+    def wide_scalar():
+        return int.from_bytes(bytes([0x80 + rng.below(0x80) for _ in range(31)] + [0x40 + rng.below(0x30)]), "little") % R
+    from props.c05 import raw
+    dense = []
+    p_ = Prog(); ws_ = [p_.w(rng.fe()) for _ in range(4)]
+    for _ in range(20):
+        p_.op("gate %s - %s" % (" ".join(hx(rng.fe()) for _ in range(6)), " ".join(p_.ref(rng.choice(ws_)) for _ in range(4))))
+    dense.append(("dense-6-random-coefficients", p_.src(), 26))
+    p_ = Prog(); ws_ = [p_.w(rng.fe()) for _ in range(4)]
+    for _ in range(22):
+        p_.op(raw([wide_scalar() for _ in range(11)], None, [p_.ref(rng.choice(ws_)) for _ in range(4)]))
+    dense.append(("dense-11-wide-selectors-at-capacity", p_.src(), 26))
+    progs += [src for (_, src, _) in dense]
     # 1. structural round trip: impl snapshot after compress+decompress == model relabelling
     r1 = ProgRunner(ctx, "C15")
     r1.run([{"src": s, "cmd": "cmpsnap", "expect": None, "rv": None, "tags": ["compress-decompress-snapshot"]} for s in progs], cmd="cmpsnap")
@@ -111,6 +127,9 @@ def run(ctx, broken):
         for deg in ([6, 9, 10, 16, 26, 40] if ctx.tier == "quick" else [1, 2, 5, 6, 9, 10, 11, 16, 25, 26, 27, 40, 58, 59, 130]):
             draws = [draw_hex(rng) for _ in range(14)]
             cs.append({"line": prove_line(srs, deg, b"c15", draws, 3, s, routes=True), "tags": ["routes-deg-%d" % deg]})
+    for (nm, src, deg) in dense:
+        draws = [draw_hex(rng) for _ in range(14)]
+        cs.append({"line": prove_line(srs, deg, b"c15", draws, 3, src, routes=True), "tags": ["routes-" + nm]})
     for deg in range(1, 70 if ctx.tier == "quick" else 300):
         cs.append({"line": "maxcons %d %s" % (deg, srs), "tags": ["max-constraints"], "strip_first": True})
     # model prints max_constraints from the degree; impl prints "<max_degree> <max_constraints>"
@@ -184,7 +203,7 @@ def run(ctx, broken):
     st["snapshot_model_disagreements"] = s1["model_disagreements"]
     st["payload_distribution"] = dist
     st["rule"] = ("%d circuits (unused witnesses, repeated / distinct selector tuples, selectors equal to the table entries 0,1,-1, random "
-                  "selectors, zero-valued public inputs, public input on first / last row, public inputs on non-arithmetic rows, widgets): (1) decompress(compress(c)) on the "
+                  "selectors, zero-valued public inputs, public input on first / last row, public inputs on non-arithmetic rows, widgets, dense descriptions filling the capacity with fresh full-width selectors): (1) decompress(compress(c)) on the "
                   "implementation == the Lean model's first-use relabelling; (2) for SRS degrees from too small to ample both routes "
                   "give byte-identical prover and verifier or both fail, and the proof equals the specification prover's; "
                   "Compiler::max_constraints == model for every degree; (3) re-packed payloads (trailing data, truncation, bit flips "
